@@ -86,6 +86,9 @@ func c18Build(cs c18Case) c18File {
 			s.Pre = []imggen.PNGChunk{{Type: "cICP", Data: []byte{1, 13, 0, 1}}}
 			s.Post = append(s.Post, anc...)
 		}
+		if cs.Variant == "hugechunk" { // one chunk of 16 MiB + 5 bytes (a length that needs the fourth byte of the field), then a small one
+			anc = []imggen.PNGChunk{{Type: "tEXt", Data: append([]byte("k\x00"), rng.Bytes(16<<20+3)...)}, {Type: "tIME", Data: []byte{0x07, 0xe8, 2, 29, 12, 34, 56}}}
+		}
 		if cs.Variant == "bigchunk" { // one chunk of 700 KiB, then a small one
 			anc = []imggen.PNGChunk{{Type: "tEXt", Data: append([]byte("k\x00"), rng.Bytes(700<<10)...)}, {Type: "tIME", Data: []byte{0x07, 0xe8, 2, 29, 12, 34, 56}}}
 		}
@@ -93,7 +96,7 @@ func c18Build(cs c18Case) c18File {
 		case "after-ancillary":
 			s.Pre = anc
 		case "none":
-			if cs.Variant == "ancillary" || cs.Variant == "bigchunk" || cs.Variant == "emptychunks" {
+			if cs.Variant == "ancillary" || cs.Variant == "bigchunk" || cs.Variant == "hugechunk" || cs.Variant == "emptychunks" {
 				s.Pre = anc
 			}
 		case "after-header":
@@ -415,6 +418,11 @@ func c18Cases(seed int64, thorough bool) []c18Case {
 					out = append(out, c18Case{"PNG", fmt.Sprintf("align%+d", mult*4096+d), "after-ancillary", 700, 64 << 10, loader, sc, rng.U64()})
 				}
 			}
+		}
+	}
+	for _, loader := range []string{"pngmeta", "autometa"} {
+		for _, sc := range []string{"all", "4096", "seekable"} {
+			out = append(out, c18Case{"PNG", "hugechunk", "none", 0, 1 << 20, loader, sc, rng.U64()}, c18Case{"PNG", "hugechunk", "after-ancillary", 500, 1 << 20, loader, sc, rng.U64()})
 		}
 	}
 	add("PNG", "bigchunk", "none", 0)
